@@ -27,6 +27,7 @@ type Job struct {
 	Mode      string `json:"mode,omitempty"` // engine specific (e.g. enumerate)
 	Only      []int  `json:"only,omitempty"` // run exactly these indices
 	Minimize  int    `json:"minimize"`       // probe budget per class
+	Isolated  bool   `json:"isolated"`       // one simulated world per process: never re-run a world in this process
 	AllProps  bool   `json:"allProps,omitempty"`
 }
 
@@ -602,7 +603,9 @@ func WorkerMain(t *testing.T) {
 					min = frozen
 				}
 				rep.Spec = min
-				if rr, vv := eval(t, min); rr.Harness == "" && hasClass(vv, v.Class) {
+				if job.Isolated {
+					rep.Trace = traceTail(r, 60)
+				} else if rr, vv := eval(t, min); rr.Harness == "" && hasClass(vv, v.Class) {
 					rep.Trace = traceTail(rr, 60)
 					for _, x := range vv {
 						if x.Class == v.Class {
